@@ -40,6 +40,8 @@ type Target struct {
 	ExecBit     bool              `json:"exec_bit,omitempty"` // first file output is made executable by the command
 	SlowMs      int               `json:"slow_ms,omitempty"`  // the command sleeps this long (between S and E)
 	Gate        string            `json:"gate,omitempty"`     // wait (bounded) until this label's S line is in the trace
+	PadKB       int               `json:"pad_kb,omitempty"`   // the first file output is padded with this many KiB (so that cache copies take time)
+	Shared      bool              `json:"shared,omitempty"`   // one more file output whose content is the same constant for every target
 }
 
 type Alias struct {
@@ -300,13 +302,20 @@ func (t Target) AllOutPaths() (files, dirs []string) {
 	if t.Bin != "" {
 		files = append(files, t.OutPath(t.Bin))
 	}
+	if t.Shared {
+		files = append(files, t.OutPath(t.sharedPath()))
+	}
 	for _, d := range t.OutDirs {
 		dirs = append(dirs, t.OutPath(d))
 	}
 	return
 }
 
-func (t Target) HasOutputs() bool { return len(t.OutFiles)+len(t.OutDirs) > 0 || t.Bin != "" }
+func (t Target) HasOutputs() bool {
+	return len(t.OutFiles)+len(t.OutDirs) > 0 || t.Bin != "" || t.Shared
+}
+
+func (t Target) sharedPath() string { return "shared/" + t.Name + ".const" }
 
 // Expect computes, for every target, the expected state of every declared output:
 // workspace-relative path -> OutFile (for dir outputs every entry below the dir, plus the dir itself).
@@ -354,7 +363,13 @@ func (w WS) Expect() (outs map[string]map[string]OutFile, bodies map[string]stri
 			if i > 0 {
 				content = fmt.Sprintf("%s#%d\n", body, i)
 			}
+			if i == 0 && t.PadKB > 0 {
+				content += strings.Repeat("x", t.PadKB*1024)
+			}
 			m[t.OutPath(f)] = OutFile{Content: content, Exec: i == 0 && t.ExecBit}
+		}
+		if t.Shared {
+			m[t.OutPath(t.sharedPath())] = OutFile{Content: "the same bytes in every target\n"}
 		}
 		if t.Bin != "" {
 			m[t.OutPath(t.Bin)] = OutFile{Content: "#!/bin/sh\ncat <<'EOF_BODY'\n" + body + "EOF_BODY\n", Exec: true}
@@ -396,6 +411,8 @@ func (w WS) Command(t *Target) string {
 	var b strings.Builder
 	id := t.ID()
 	b.WriteString("export LC_ALL=C\n")
+	// a command that ignores SIGTERM (cleanup handlers do that); only used by the interrupt check
+	b.WriteString("if [ -n \"${VERIF_TRAP_TERM:-}\" ]; then trap '' TERM; fi\n")
 	fmt.Fprintf(&b, "printf 'S %%s\\n' \"$GROG_TARGET\" >> \"$TRACE\"\n")
 	if t.Gate != "" {
 		fmt.Fprintf(&b, "i=0; while [ $i -lt 60 ] && ! grep -q -x -F %s \"$TRACE\"; do sleep 0.05; i=$((i+1)); done\n", shQuote("S "+t.Gate))
@@ -445,12 +462,19 @@ func (w WS) Command(t *Target) string {
 		if i > 0 {
 			fmt.Fprintf(&b, "; printf '#%d\\n' >> %s", i, shQuote(f))
 		}
+		if i == 0 && t.PadKB > 0 {
+			fmt.Fprintf(&b, "; head -c %d /dev/zero | tr '\\000' x >> %s", t.PadKB*1024, shQuote(f))
+		}
 		if i == 0 && t.ExecBit {
 			fmt.Fprintf(&b, "; chmod 755 %s", shQuote(f))
 		} else {
 			fmt.Fprintf(&b, "; chmod 644 %s", shQuote(f))
 		}
 		b.WriteString("; fi\n")
+	}
+	if t.Shared {
+		sp := shQuote(t.sharedPath())
+		fmt.Fprintf(&b, "mkdir -p \"$(dirname %s)\"; rm -rf %s; printf 'the same bytes in every target\\n' > %s; chmod 644 %s\n", sp, sp, sp, sp)
 	}
 	if t.Bin != "" {
 		fmt.Fprintf(&b, "mkdir -p \"$(dirname %s)\"; rm -rf %s; { printf '#!/bin/sh\\ncat <<'\"'\"'EOF_BODY'\"'\"'\\n'; cat \"$body\"; printf 'EOF_BODY\\n'; } > %s\n", shQuote(t.Bin), shQuote(t.Bin), shQuote(t.Bin))
@@ -488,6 +512,9 @@ func CheckCommand(c Check) string {
 func (t Target) OutputDefs() []string {
 	var defs []string
 	defs = append(defs, t.OutFiles...)
+	if t.Shared {
+		defs = append(defs, t.sharedPath())
+	}
 	for _, d := range t.OutDirs {
 		defs = append(defs, "dir::"+d)
 	}
